@@ -296,8 +296,14 @@ for i in range(200 * N):
     curve = R.choice([256, 384])
     n = curve // 4
     xy = rand_bytes(n)
-    form = R.choice(["bare", "wrapped", "wrapped", "bare", "ambiguous", "short", "long", "compressed", "empty", "one", "noprefix", "wrapped_badlen", "lenlike", "lenlike"])
-    if form == "lenlike":
+    form = R.choice(["bare", "wrapped", "wrapped", "bare", "ambiguous", "short", "long", "compressed", "empty", "one", "noprefix", "wrapped_badlen", "lenlike", "lenlike", "bare04", "wrapped04"])
+    if form in ("bare04", "wrapped04"):
+        # X itself begins with octets equal to the SEC1 prefix: they belong to the key
+        xy = bytes([4] * R.choice([1, 1, 2, 3])) + xy[3:]
+        xy = (xy + rand_bytes(n))[:n]
+        form = form[:-2]
+        point = (b"\x04" + xy) if form == "bare" else bytes([4, n + 1, 4]) + xy
+    elif form == "lenlike":
         # a bare point whose X begins with the octet a DER wrapper would carry as length, but not followed by 0x04: still a bare point
         xy = bytes([n - 1, R.choice([0, 3, 5, 255, R.randrange(256)])]) + xy[2:]
         if xy[1] == 4:
